@@ -564,3 +564,23 @@ func flushPart(code int, start time.Time) {
 	}
 	_ = os.WriteFile(*flagPart+".h", hb, 0o644)
 }
+
+// FuzzSub drives a sub-check's structured generator with Go's coverage-guided fuzzer: the fuzzer's
+// bytes become rapid's bit stream (rapid.MakeFuzz), so coverage feedback steers the same generator
+// and the same oracle. Thorough tier only; a failure is written as an ordinary replay file.
+func FuzzSub[C any](f *testing.F, s Sub[C]) {
+	f.Add([]byte{})
+	f.Add([]byte{1, 2, 3, 4, 5, 6, 7, 8, 9, 10, 11, 12, 13, 14, 15, 16, 17, 18, 19, 20, 21, 22, 23, 24, 25, 26, 27, 28, 29, 30, 31, 32})
+	f.Fuzz(rapid.MakeFuzz(func(t *rapid.T) {
+		c := s.Gen(t)
+		_, err := safeCheck(s.Check, c)
+		if err == nil {
+			return
+		}
+		p := writeReplay(s.Prop, s.Name, c, err.Error())
+		if strings.HasPrefix(err.Error(), "PRECONDITION") {
+			t.Fatalf("VERIF-INFRA property=%s sub=%s generated case outside the domain (%s); saved to %s", s.Prop, s.Name, firstLine(err.Error()), p)
+		}
+		t.Fatalf("VERIF-FAIL property=%s sub=%s replay=%s error=%s", s.Prop, s.Name, p, firstLine(err.Error()))
+	}))
+}
